@@ -142,6 +142,9 @@ type Frame struct {
 	names map[string]*specBinding
 
 	modLocs []modLoc // own modifies, evaluated at entry (top only)
+
+	loopCon       *Contract // own contract supplying loop invariants (interface-contract mode)
+	loopNamesBase map[string]*specBinding
 }
 
 func (vc *VC) newFrame(fn *ssa.Function, top bool, depth int) *Frame {
